@@ -657,6 +657,16 @@ func siteOf(st ast.Stmt) (*ast.CallExpr, string) {
 				return ce, "if-init"
 			}
 		}
+		if s.Init == nil {
+			// `if h(...) {` / `if !h(...) {`: the condition is the call alone
+			cond := ast.Unparen(s.Cond)
+			if u, ok := cond.(*ast.UnaryExpr); ok && u.Op == token.NOT {
+				cond = ast.Unparen(u.X)
+			}
+			if ce, ok := cond.(*ast.CallExpr); ok {
+				return ce, "if-cond"
+			}
+		}
 	}
 	return nil, ""
 }
@@ -834,6 +844,17 @@ func (in *inliner) expand(file *ast.File, src []byte, st ast.Stmt, call *ast.Cal
 		} else if len(resNames) == 0 {
 			b.WriteString("return\n")
 		}
+	case "if-cond":
+		ifs := st.(*ast.IfStmt)
+		if len(resNames) != 1 {
+			return "", "a condition needs exactly one result"
+		}
+		neg := ""
+		if u, ok := ast.Unparen(ifs.Cond).(*ast.UnaryExpr); ok && u.Op == token.NOT {
+			neg = "!"
+		}
+		rest := string(src[in.off(ifs.Body.Lbrace):in.off(ifs.End())])
+		return "{\n" + b.String() + in.lineDir(ifs.Cond.Pos(), 0) + "if " + neg + resNames[0] + " " + rest + "\n}\n" + in.lineDir(st.End(), 0), ""
 	case "if-init":
 		ifs := st.(*ast.IfStmt)
 		as := ifs.Init.(*ast.AssignStmt)
